@@ -351,6 +351,57 @@ func c10Run(c *C) {
 			return
 		}
 	}
+	// a chain member reached from another document: included (static / computed name), inserted by ssi parsed, or
+	// included from a block of a template that has an inheritance chain of its own
+	member := chain[g.r.Intn(len(chain))]
+	if sibling != nil && g.r.Chance(25) {
+		member = sibling[len(sibling)-1]
+	}
+	mchain := chain[:1]
+	for i, t := range chain {
+		if t == member {
+			mchain = chain[:i+1]
+		}
+	}
+	if sibling != nil && member == sibling[len(sibling)-1] {
+		mchain = sibling
+	}
+	if mwant := c10Expected(mchain); mwant != c10Cyclic {
+		files["/host_static.tpl"] = `H[{% include "` + member.file + `" %}]`
+		files["/host_lazy.tpl"] = `H[{% include member %}]`
+		files["/host_ssi.tpl"] = `H[{% ssi "` + member.file + `" parsed %}]`
+		files["/hostbase.tpl"] = `HB<{% block hostblock %}hb{% endblock %}>`
+		files["/host_child.tpl"] = `{% extends "/hostbase.tpl" %}{% block hostblock %}[{{ block.Super }}|{% include "` + member.file + `" %}|{% include member %}]{% endblock %}`
+		hosts := []struct {
+			file, pre, post string
+			n               int
+		}{{"/host_static.tpl", "H[", "]", 1}, {"/host_lazy.tpl", "H[", "]", 1}, {"/host_ssi.tpl", "H[", "]", 1}, {"/host_child.tpl", "HB<[hb|", "]>", 2}}
+		for _, h := range hosts {
+			tpl, err := get(h.file)
+			if err != nil {
+				c.Fail("compile-error", D{"files": files, "template": h.file, "error": err.Error()})
+				return
+			}
+			hctx := c10Ctx()
+			hctx["member"] = member.file
+			out, xerr := tpl.Execute(hctx)
+			c.Eval(1)
+			want := h.pre + mwant
+			if h.n == 2 {
+				want += "|" + mwant
+			}
+			want += h.post
+			if xerr != nil || out != want {
+				c.Fail("inheritance-mismatch", D{"files": files, "rendered": h.file, "when": "a chain member reached through include/ssi from another document", "output": q(out), "expected": q(want), "error": errStr(xerr)})
+				return
+			}
+			c.Cover("member_via_" + strings.Trim(h.file, "/.tpl"))
+		}
+		// and the member itself is still what it was
+		if !render(member, mchain, "after it was included from other documents") {
+			return
+		}
+	}
 	c.Cover(fmt.Sprintf("depth_%d", depth))
 	src := ""
 	for _, t := range all {
@@ -418,11 +469,11 @@ func init() {
 			if tier == "thorough" {
 				return 300000
 			}
-			return 60000
+			return 40000
 		},
 		Run: c10Run,
 		Rule: "random inheritance chains of depth 0-4 above a base (plus a sibling branching off the chain) served from an in-memory loader: per level every known block is overridden (with or without block.Super, possibly declaring nested blocks under new or inherited names, wrapped in if/for) or inherited, dangling blocks are added, child top-level text/failing expressions/a counting function are added; " +
-			"the base is rendered before any child exists, then every template of the chain (root-first or leaf-first), the sibling, and all of them again afterwards, through FromFile or FromCache; each output is compared with a reference resolution (most-derived definition wins wherever the block is placed, Super = next less-derived definition, empty at the base); one case in ten checks the invalid shapes (second/nested extends, duplicate block) and that valid shapes compile. distinct_nontrivial = distinct chains of depth >= 1.",
+			"the base is rendered before any child exists, then every template of the chain (root-first or leaf-first), the sibling, and all of them again afterwards, through FromFile or FromCache; each output is compared with a reference resolution (most-derived definition wins wherever the block is placed, Super = next less-derived definition, empty at the base); a member of the chain is also rendered through host documents (static include, computed-name include, ssi parsed, include from a block of a template with a chain of its own); one case in ten checks the invalid shapes (second/nested extends, duplicate block) and that valid shapes compile. distinct_nontrivial = distinct chains of depth >= 1.",
 		MinNontriv:  1000,
 		Assumptions: []string{"extends is always the first tag of a child", "ExecuteBlocks is not exercised"},
 	})
